@@ -300,6 +300,16 @@ async fn join2<A: Future, B: Future>(a: A, b: B) -> (A::Output, B::Output) {
     .await
 }
 
+/// Re-encode a received message for the comparison. A message that cannot be
+/// re-encoded (encoder error or panic) is certainly not one that was sent.
+fn reencode<M: Fragment>(m: &M) -> Result<Vec<u8>, String> {
+    match catch(|| minicbor::to_vec(m)) {
+        Ok(Ok(b)) => Ok(b),
+        Ok(Err(e)) => Err(format!("a message was yielded that cannot be re-encoded ({e}), so it is not the one sent")),
+        Err(p) => Err(format!("a message was yielded whose re-encoding panics ({} at {}), so it is not the one sent (every sent message re-encodes)", p.message, p.location)),
+    }
+}
+
 fn classify(e: MuxError) -> (&'static str, String) {
     match e {
         MuxError::Decoding(s) => ("decode-error", s),
@@ -343,10 +353,10 @@ fn net1_eval<M: Fragment + 'static>(inp: EvalIn) -> EvalOut {
             let recv = async {
                 for _ in 0..k {
                     match rx.recv_full_msg::<M>().await {
-                        Ok(m) => match minicbor::to_vec(&m) {
+                        Ok(m) => match reencode(&m) {
                             Ok(b) => o2.borrow_mut().got.push(b),
                             Err(e) => {
-                                o2.borrow_mut().error = Some(("reencode-error", e.to_string()));
+                                o2.borrow_mut().error = Some(("wrong-message", e));
                                 return false;
                             }
                         },
@@ -375,9 +385,9 @@ fn net1_eval<M: Fragment + 'static>(inp: EvalIn) -> EvalOut {
                 return;
             }
             match rx.recv_full_msg::<M>().await {
-                Ok(m) => match minicbor::to_vec(&m) {
+                Ok(m) => match reencode(&m) {
                     Ok(b) => o.borrow_mut().sentinel = Some(b),
-                    Err(e) => o.borrow_mut().error = Some(("reencode-error", e.to_string())),
+                    Err(e) => o.borrow_mut().error = Some(("wrong-message", e)),
                 },
                 Err(e) => o.borrow_mut().error = Some(classify(e)),
             }
@@ -636,6 +646,12 @@ fn load(thorough: bool) -> (Vec<Proto>, Vec<String>) {
             Msg { name, bytes: Arc::new(b) }
         });
         let mut extended = vec![];
+        let mut seen: BTreeSet<Vec<u8>> = BTreeSet::new();
+        for m in small.iter().chain(big.iter()) {
+            if !seen.insert(m.bytes.to_vec()) {
+                mc_core::report::machinery_failure(&format!("C21: alphabet of {}/{} has two messages with the same encoding ({})", p.stack, p.protocol, m.name));
+            }
+        }
         for (name, b, ok) in list {
             let full = format!("{}/{}/{}", p.stack, p.protocol, name);
             if !*ok {
@@ -644,9 +660,10 @@ fn load(thorough: bool) -> (Vec<Proto>, Vec<String>) {
                 }
                 continue;
             }
-            if b.len() > 4096 || small.iter().any(|m| &m.name == name) {
+            if b.len() > 4096 || seen.contains(b) {
                 continue;
             }
+            seen.insert(b.clone());
             match valid(name, b) {
                 Ok(()) => extended.push(Msg { name: name.clone(), bytes: Arc::new(b.clone()) }),
                 Err(e) => {
@@ -726,7 +743,13 @@ fn window_positions(n: usize, bounds: &[usize], w: usize) -> BTreeSet<u32> {
 /// `bounds` = end offsets of the messages. `light` = single-message sweep of
 /// the extended alphabet (pairs only within `full_n`).
 fn for_each_seg(n: usize, bounds: &[usize], lim: &Limits, light: bool, f: &mut dyn FnMut(&[u32], Option<u32>)) {
-    let mid = (n / 2).max(1) as u32;
+    // the explicit empty segments: one in the middle of the stream (normally
+    // inside a message) and, with two or more messages, one exactly between
+    // the first two messages (the receiver's buffer is empty at that moment)
+    let mut empties: Vec<u32> = vec![(n / 2).max(1) as u32];
+    if bounds.len() >= 2 && bounds[0] as u32 != empties[0] {
+        empties.push(bounds[0] as u32);
+    }
     if n <= lim.full_n {
         let mut cuts: Vec<u32> = Vec::with_capacity(n);
         for mask in 0u32..(1u32 << (n - 1)) {
@@ -738,8 +761,8 @@ fn for_each_seg(n: usize, bounds: &[usize], lim: &Limits, light: bool, f: &mut d
             }
             f(&cuts, None);
         }
-        if n >= 2 {
-            f(&[mid], Some(mid));
+        for &e in &empties {
+            f(&[e], Some(e));
         }
         return;
     }
@@ -779,9 +802,10 @@ fn for_each_seg(n: usize, bounds: &[usize], lim: &Limits, light: bool, f: &mut d
     for cuts in &set {
         f(cuts, None);
     }
-    // the one explicit empty segment: ... | [] | ...
-    let base = normalize(&[mid], n);
-    f(&base, Some(mid));
+    // ... | [] | ...
+    for &e in &empties {
+        f(&normalize(&[e], n), Some(e));
+    }
 }
 
 fn build_segments(stream: &[u8], cuts: &[u32], empty_at: Option<u32>) -> Vec<Vec<u8>> {
@@ -886,13 +910,16 @@ struct JobRes {
     sample: Option<Value>,
 }
 
-fn case_json(p: &Proto, msgs: &[Msg], n: usize, cuts: &[u32], empty_at: Option<u32>) -> Value {
+fn case_json(p: &Proto, msgs: &[Msg], n: usize, cuts: &[u32], empty_at: Option<u32>, ordinal: u64, light: bool) -> Value {
     let cuts_v: Value = if cuts.len() <= 64 { json!(cuts) } else { json!({"count": cuts.len(), "first": &cuts[..8], "uniform_step": if cuts.windows(2).all(|w| w[1] - w[0] == cuts[0]) { Some(cuts[0]) } else { None }}) };
     json!({
         "stack": p.stack, "path": p.path, "protocol": p.protocol,
         "messages": msgs.iter().map(|m| m.name.clone()).collect::<Vec<_>>(),
         "message_hex": msgs.iter().map(|m| short_hex(&m.bytes)).collect::<Vec<_>>(),
         "stream_len": n, "cuts": cuts_v, "empty_segment_at": empty_at,
+        // position in the enumeration of this stream's segmentations (used by
+        // --replay when the cut list is abbreviated; same tier required)
+        "segmentation_ordinal": ordinal, "single_message_sweep": light,
     })
 }
 
@@ -925,7 +952,7 @@ fn run_job(protos: &[Proto], job: &Job, idx: usize, lim: &Limits) -> JobRes {
             res.nontrivial += 1;
         }
         if res.sample.is_none() && nontrivial && cuts.len() >= 2 && ordinal >= 5 {
-            res.sample = Some(case_json(p, &job.msgs, n, cuts, empty_at));
+            res.sample = Some(case_json(p, &job.msgs, n, cuts, empty_at, ordinal, job.light));
         }
         let (class, at, site, what) = match run_one(p, &job.msgs, &stream, cuts, empty_at, flip) {
             Ok(None) => {
@@ -935,16 +962,23 @@ fn run_job(protos: &[Proto], job: &Job, idx: usize, lim: &Limits) -> JobRes {
             Ok(Some(v)) => (v.class.to_string(), v.at, None, v.detail),
             Err(pn) => ("panic".to_string(), String::new(), Some(pn.site()), format!("panicked: {} at {}", pn.message, pn.location)),
         };
+        // a failure of the empty-segment case is attributed to the empty
+        // segment only if the same cuts without it pass
+        let (class, at, what) = if empty_at.is_some() && matches!(run_one(p, &job.msgs, &stream, cuts, None, flip), Ok(None)) {
+            ("empty-segment".to_string(), String::new(), format!("a zero-length segment between two segments breaks reassembly ({class} at {at}): {what}"))
+        } else {
+            (class, at, what)
+        };
         let key = (n, cuts.len() + empty_at.is_some() as usize);
         if let Some(f) = res.found.iter_mut().find(|f| f.class == class && f.at == at && f.panic_site == site) {
             f.count += 1;
             if key < f.key {
                 f.key = key;
                 f.what = what;
-                f.case = case_json(p, &job.msgs, n, cuts, empty_at);
+                f.case = case_json(p, &job.msgs, n, cuts, empty_at, ordinal, job.light);
             }
         } else {
-            res.found.push(Found { class, at, panic_site: site, what, case: case_json(p, &job.msgs, n, cuts, empty_at), key, count: 1 });
+            res.found.push(Found { class, at, panic_site: site, what, case: case_json(p, &job.msgs, n, cuts, empty_at, ordinal, job.light), key, count: 1 });
         }
     });
     res
@@ -998,7 +1032,7 @@ fn jobs(protos: &[Proto], lim: &Limits, thorough: bool) -> Vec<Job> {
 
 // --------------------------------------------------------------------- run
 
-fn replay(ctx: &Ctx, protos: &[Proto], path: &std::path::Path) -> ! {
+fn replay(ctx: &Ctx, protos: &[Proto], lim: &Limits, path: &std::path::Path) -> ! {
     let v: Value = std::fs::read_to_string(path).ok().and_then(|s| serde_json::from_str(&s).ok()).unwrap_or_else(|| mc_core::report::machinery_failure("C21: unreadable replay file"));
     let c = &v["case"];
     let g = |k: &str| c[k].as_str().unwrap_or("").to_string();
@@ -1017,10 +1051,26 @@ fn replay(ctx: &Ctx, protos: &[Proto], path: &std::path::Path) -> ! {
     let stream: Vec<u8> = msgs.iter().flat_map(|m| m.bytes.iter().cloned()).collect();
     let cuts: Vec<u32> = match &c["cuts"] {
         Value::Array(a) => a.iter().filter_map(|x| x.as_u64().map(|x| x as u32)).collect(),
-        o => match o["uniform_step"].as_u64() {
-            Some(k) => (1..).map(|i| i * k as u32).take_while(|&x| (x as usize) < stream.len()).collect(),
-            None => mc_core::report::machinery_failure("C21: replay cut list was abbreviated and is not uniform"),
-        },
+        _ => {
+            // abbreviated: re-enumerate the stream's segmentations and take the recorded one
+            let want = c["segmentation_ordinal"].as_u64().unwrap_or(0);
+            let light = c["single_message_sweep"].as_bool().unwrap_or(false);
+            let mut bounds = vec![];
+            let mut at = 0;
+            for m in &msgs {
+                at += m.bytes.len();
+                bounds.push(at);
+            }
+            let mut found: Option<Vec<u32>> = None;
+            let mut ordinal = 0u64;
+            for_each_seg(stream.len(), &bounds, lim, light, &mut |cuts, _| {
+                ordinal += 1;
+                if ordinal == want {
+                    found = Some(cuts.to_vec());
+                }
+            });
+            found.unwrap_or_else(|| mc_core::report::machinery_failure("C21: recorded segmentation ordinal not found (run the replay with the tier that produced it)"))
+        }
     };
     let empty_at = c["empty_segment_at"].as_u64().map(|x| x as u32);
     println!("replay C21 {} {} {}: {} messages, {} bytes, {} cuts, tier {}", p.stack, p.path, p.protocol, msgs.len(), stream.len(), cuts.len(), ctx.tier());
@@ -1039,12 +1089,27 @@ pub fn run(ctx: Ctx) -> ! {
     let lim = if thorough { Limits { full_n: 18, pair_n: 300, pair_window: 16 } } else { Limits { full_n: 14, pair_n: 120, pair_window: 6 } };
     let (protos, excluded) = load(thorough);
     if let Some(p) = &ctx.replay {
-        replay(&ctx, &protos, p);
+        replay(&ctx, &protos, &lim, p);
     }
     let mut js = jobs(&protos, &lim, thorough);
     // heavy jobs first (stable order => deterministic job indices)
     js.sort_by(|a, b| b.cost.cmp(&a.cost));
-    let results: Vec<JobRes> = js.par_iter().enumerate().with_max_len(1).map(|(i, j)| run_job(&protos, j, i, &lim)).collect();
+    let profile = std::env::var("VERIF_C21_PROFILE").is_ok();
+    let t0 = std::time::Instant::now();
+    let results: Vec<JobRes> = js
+        .par_iter()
+        .enumerate()
+        .with_max_len(1)
+        .map(|(i, j)| {
+            let t = std::time::Instant::now();
+            let r = run_job(&protos, j, i, &lim);
+            if profile && t.elapsed().as_secs_f64() > 0.5 {
+                // diagnostics only (never part of the verdict or the evidence)
+                eprintln!("profile: job {i} {} {} {:?} n={} evals={} took {:.2}s (started at {:.2}s) est={}", protos[j.proto].path, protos[j.proto].protocol, j.msgs.iter().map(|m| m.name.as_str()).collect::<Vec<_>>(), j.msgs.iter().map(|m| m.bytes.len()).sum::<usize>(), r.evals, t.elapsed().as_secs_f64(), (t0.elapsed() - t.elapsed()).as_secs_f64(), j.cost);
+            }
+            r
+        })
+        .collect();
 
     // ---- aggregate (in job order: deterministic)
     #[derive(Default)]
@@ -1116,7 +1181,11 @@ pub fn run(ctx: Ctx) -> ! {
         } else if protos_of_class[&(stack.clone(), class.clone())].len() * 2 > n_stack {
             format!("reassembly:{stack}:{class}")
         } else {
-            format!("reassembly:{stack}:{class}:{proto}::{at}")
+            if at.is_empty() {
+                format!("reassembly:{stack}:{class}:{proto}")
+            } else {
+                format!("reassembly:{stack}:{class}:{proto}::{at}")
+            }
         };
         ctx.violation(fp.clone(), format!("{stack} {proto}: {}", f.what), f.case.clone());
         for _ in 1..f.count.min(1_000_000) {
@@ -1166,7 +1235,7 @@ pub fn run(ctx: Ctx) -> ! {
     let rule = format!(
         "evaluation = one (stream, segmentation) executed on one real receive path (pallas-network: enqueue_chunk -> Muxer -> pipe -> Demuxer -> ChannelBuffer::recv_full_msg::<protocol message type>, then a complete sentinel message; pallas-network2: write_segment -> pipe -> read_full_msgs::<AnyMessage> once per segment, partial_chunks empty at the end; and AnyMessage::from_payload fed the same segments directly). \
          Streams per protocol: (a) every sequence of 1..3 messages over the protocol's reduced alphabet (first {QUICK_ALPHA} entries in quick, all 7 in thorough; listed under `alphabets`), (b) streams with one crafted message carrying a {BIG_BODY}-byte body where the protocol has a body field ([B], [s,B,s'] in quick; also [s,B], [B,s'], [B,B] in thorough), (c) every other mc-proto message of the protocol that passes C22 and is <= 4096 bytes, as a single-message stream. \
-         Segmentations of a stream of n bytes: n <= {} : all 2^(n-1) cut sets; otherwise: no cut, every single cut (n <= {DENSE_N}: every position; longer: every position within {SINGLE_WINDOW} bytes of a message start/end, within 2 of a multiple of 65535, and every {STRIDE}th byte), every pair of cuts (n <= {}: all positions; longer streams: positions within {} bytes of a message boundary / 65535 multiple; not for (c) in quick), the all-1-byte segmentation, uniform k-byte segmentations k in {{2,3,7,255,65535}}, and one segmentation with an EMPTY segment between two halves. Segments longer than 65535 bytes are further cut at 65535-byte steps. Odd job indices run server->client / with the server bit set. \
+         Segmentations of a stream of n bytes: n <= {} : all 2^(n-1) cut sets; otherwise: no cut, every single cut (n <= {DENSE_N}: every position; longer: every position within {SINGLE_WINDOW} bytes of a message start/end, within 2 of a multiple of 65535, and every {STRIDE}th byte), every pair of cuts (n <= {}: all positions; longer streams: positions within {} bytes of a message boundary / 65535 multiple; not for (c) in quick), the all-1-byte segmentation, uniform k-byte segmentations k in {{2,3,7,255,65535}}, and segmentations with an EMPTY segment (one in the middle of the stream, and, for streams of >= 2 messages, one exactly between the first two messages). Segments longer than 65535 bytes are further cut at 65535-byte steps. Odd job indices run server->client / with the server bit set. \
          distinct_nontrivial = number of distinct (stack, protocol, stream, cut set) in which at least one cut lies strictly inside a message (counted once for the two pallas-network2 paths; the empty-segment case is not counted).",
         lim.full_n, lim.pair_n, lim.pair_window
     );
